@@ -56,6 +56,33 @@ TARGETS = [
         ("EnforcementState", "get_previous_counterparty_point", "C03", "C03_fn_get_previous_counterparty_point"),
         ("EnforcementState", "get_previous_counterparty_commit_info", "C03", "C03_fn_get_previous_counterparty_commit_info"),
         ("EnforcementState", "set_next_counterparty_revoke_num", "C03", "C03_fn_set_next_counterparty_revoke_num"),
+        # default methods of `trait Validator` (the guards in front of the setters; `&mut EnforcementState` parameter);
+        # "filter": the only external is `policy_filter_err`, the `fngen` driver instantiates it with a constant
+        # filter given as the first argument (1 = every tag stays an error, 0 = every tag is demoted to a warning)
+        ("Validator", "set_next_holder_commit_num", "C01", "C01_fn_validator_set_next_holder_commit_num", "filter"),
+        ("Validator", "get_current_holder_commitment_info", "C02", "C02_fn_get_current_holder_commitment_info", "filter"),
+        ("Validator", "set_next_counterparty_commit_num", "C03", "C03_fn_validator_set_next_counterparty_commit_num", "filter"),
+        ("Validator", "set_next_counterparty_revoke_num", "C03", "C03_fn_validator_set_next_counterparty_revoke_num", "filter"),
+    ]),
+    dict(area="Channel", rel="vls-core/src/channel.rs", consts=["vls-core/src/util/mod.rs"],
+         structs=["vls-core/src/policy/validator.rs"],
+         # declared externals (trusted boundary, explicit parameters of the generated definitions): key derivation of the
+         # LDK signer and secp parsing; `self.validator()` is only the receiver of `policy_err!` (its policy filter is the
+         # external `policy_filter_err`); a declared `Result` is read as `Option` (`Err` = `none`)
+         externals={
+             "self.validator": {"params": [], "ret": "()", "drop": True},
+             "self.get_per_commitment_point_unchecked": {"params": ["u64"], "ret": "PublicKey"},
+             "InMemorySigner.release_commitment_secret": {"params": ["u64"], "ret": "Result<Secret32, ()>"},
+             "SecretKey::from_slice": {"params": ["Secret32"], "ret": "Result<SecretKey, ()>"},
+         }, fns=[
+        # `impl ChannelBase for ChannelStub`: a channel that is not set up never discloses a secret (C01)
+        ("ChannelStub", "get_per_commitment_secret", "C01", "C01_fn_stub_get_per_commitment_secret"),
+        ("ChannelStub", "get_per_commitment_secret_or_none", "C01", "C01_fn_stub_get_per_commitment_secret_or_none"),
+        # `impl ChannelBase for Channel`: the release guard `n + 2 <= next_holder_commit_num` and the point guard
+        ("Channel", "get_per_commitment_point", "C01", "C01_fn_get_per_commitment_point"),
+        ("Channel", "get_per_commitment_secret", "C01", "C01_fn_get_per_commitment_secret"),
+        ("Channel", "get_per_commitment_secret_or_none", "C01", "C01_fn_get_per_commitment_secret_or_none"),
+        ("Channel", "release_commitment_secret", "C01", "C01_fn_release_commitment_secret"),
     ]),
     dict(area="Monitor", rel="vls-core/src/monitor.rs", consts=[], externals={}, fns=[
         ("State", "depth_of", "C15", "C15_fn_depth_of"),
@@ -143,7 +170,7 @@ class Codec:
         if k == "bool": return "encBool"
         if k == "str": return "id"
         if k == "unit": return "encUnit"
-        if k == "opaque": return "toString"
+        if k == "opaque": return "(toString : Nat → String)"   # pins an opaque type that only occurs in the result
         if k == "opt": return "(encOpt %s)" % self.enc(t[1])
         if k == "vec": return "(encList %s)" % self.enc(t[1])
         if k == "map": return "(encList (encPair id %s))" % self.enc(t[2])
@@ -156,18 +183,22 @@ class Codec:
         raise RsError("no encoder for %r" % (t,))
 
 
-def dispatch_for(unit, area, fns, arms, defs):
+def dispatch_for(unit, area, fns, arms, defs, filt=()):
     """adds the `call_…` definitions of the translated functions of one unit"""
     cd = Codec(unit, area)
     calls = []
     for f in fns:
         key = "%s.%s" % (area, f.lean_name)
-        if f.exts:
+        const_filter = f.lean_name in filt and [n for n, _ in f.exts] == ["policy_filter_err"]
+        if f.exts and not const_filter:
             arms.append('  | "%s" :: _ => "nodriver"' % key)
             continue
         ident = "call_%s_%s" % (area, f.lean_name.replace(".", "_").replace("«", "").replace("»", ""))
         L = ["def %s (ts : List String) : Option String := do" % ident]
         names = []
+        if const_filter:
+            L.append("  let (pf, ts) ← decBool ts")
+            names.append("(fun _ => pf)")
         for i, (pn, pt) in enumerate(f.params):
             L.append("  let (a%d, ts) ← %s ts" % (i, cd.dec(pt)))
             names.append("a%d" % i)
@@ -221,7 +252,8 @@ def extract(repo):
                 snippets.append("// %s:%d\n%s\n" % (tg["rel"], f.line, txt))
         outputs["Fn%s.lean" % tg["area"]] = u.emit()
         imports.append("import VlsModel.Gen.Fn%s" % tg["area"])
-        dispatch_for(u, tg["area"], [u.fns[k] for k in u.order], arms, ddefs)
+        filt = set((t[0] + "." if t[0] else "") + t[1] for t in tg["fns"] if len(t) > 4 and t[4] == "filter")
+        dispatch_for(u, tg["area"], [u.fns[k] for k in u.order], arms, ddefs, filt)
     outputs["FnDispatch.lean"] = "\n".join(
         ["import VlsModel.Drv.FnCodec"] + imports +
         ["/-! Dispatch table of the driver model `fngen`: `<Area>.<function> <args…>` -> outcome of the generated",
